@@ -30,9 +30,11 @@ CLAIM = ('The order, confidence and guards of the encoding sources in determineE
          'of a tag name; the BOM table holds exactly utf-8, utf-16le and utf-16be; BOM sniffing completes short '
          'reads and seeks by the length of the BOM matched; byte labels are decoded as strict ASCII; an unquoted '
          'charset value ends at white space or `;`; no exception leaves the content= extractor (it would end the '
-         'whole pre-scan).')
-NOT_DECIDED = ('the rest of the byte-level prescan (comment handling, attribute-name scanning, content= grammar '
-               'beyond the clauses above); equality of the tree with the tree of the decoded bytes.')
+         'whole pre-scan).'
+         " A declared x-user-defined means windows-1252; the pre-scan's byte classes and resumption points equal the standard's (after `<meta`, tag-name end, unquoted-value end, comment end, lone `<`, `<meta` + name character, end of buffer inside a tag); what one meta element declares equals the standard's processing for every attribute list of length <= 3 over 8 attribute kinds; the decoder is told when the input ends; the pre-scan buffer is completed across short reads; a late meta whose charset names no encoding falls back to its pragma.")
+NOT_DECIDED = ('attribute-name / quoted-value scanning of the pre-scan beyond the clauses above (an independent transcription agreed with it on '
+               '100 000 generated inputs after the repairs, which is testing, not part of the check); chardet; '
+               'equality of the tree with the tree of the decoded bytes.')
 MODULES = ["_inputstream.py", "html5parser.py"]
 REL = "_inputstream.py"
 
